@@ -92,7 +92,7 @@ func famRepro(tr *Trace, scratch string, seed int64, tier string, nfpmBin string
 		if c.Changelog != nil {
 			must(os.WriteFile(filepath.Join(pc.Root, "changelog.yaml"), []byte(c.ChangelogYAML()), 0o644))
 		}
-		r := &rc{pc: pc, yAbs: c.YAML(pc.Root), yRel: strings.ReplaceAll(c.YAML("\x00REL"), "\x00REL/", "")}
+		r := &rc{pc: pc, yAbs: c.YAML(pc.Root), yRel: strings.ReplaceAll(c.YAML("@@REL@@"), "@@REL@@/", "")}
 		must(os.WriteFile(filepath.Join(pc.Root, "nfpm-abs.yaml"), []byte(r.yAbs), 0o644))
 		must(os.WriteFile(filepath.Join(pc.Root, "nfpm-rel.yaml"), []byte(r.yRel), 0o644))
 		r.evs = []M{{"ev": "case", "id": pc.ID, "fam": "repro", "pmt": c.Pmt, "sde": c.UseSDE}}
